@@ -65,6 +65,7 @@ pub fn strings() -> Vec<RV> {
         s("-170141183460469231731687303715884105728"), s("79228162514264337593543950335"), s("79228162514264337593543950336"),
         s("0.00000000000000000000000000001"),
         s("2015-07-30T03:26:13Z"), s("2015-07-30T03:26:13+02:00"), s("2016-12-31T23:59:60Z"), s("+262142-12-31T23:59:59Z"), s("+262143-01-01T00:00:00Z"),
+        s("+262142-12-31T23:59:60Z"), s("+262142-12-31T23:59:59.999999999Z"), s("+262142-12-31T23:59:60.999999999Z"), s("-262143-01-01T00:00:00Z"), s("-262143-01-01T00:00:60Z"), s("+262142-12-31T23:59:60+00:01"), s("-262143-01-01T00:00:00+23:59"),
         s("true"), s("false"), s("none"),
         s("ß"), s("İ"), s("ǅx"), s("a"), s("b"), s("ab"), s("\u{a0}x\u{2003}"),
     ]
@@ -77,6 +78,8 @@ pub fn datetimes() -> Vec<RV> {
     vec![
         RV::dt(&min), RV::dt(&max), mk(max.timestamp(), 0), mk(min.timestamp() + 1, 0), mk(0, 0), mk(1438226773, 0),
         mk(951825600, 0), mk(1, 500_000_000), mk(-1, 500_000_000), mk(86_399, 0), mk(-86_400 * 366, 0), mk(1483228799, 1_500_000_000),
+        // leap seconds at the very end and the very start of the representable range
+        mk(max.timestamp(), 1_000_000_000), mk(max.timestamp(), 1_999_999_999), mk(min.timestamp() + 59, 1_000_000_000),
     ]
 }
 
@@ -193,6 +196,28 @@ pub fn sweep_strings() -> Vec<RV> {
         "+10000-01-01T00:00:00Z", "0000-01-01T00:00:00Z", "-0001-12-31T00:00:00Z", "2015-07-30T03:26:13", "2015-07-30",
     ] {
         v.push(x.to_string());
+    }
+    // context-sensitive case mapping: every string of <= 4 characters over sigma, a cased letter, an
+    // apostrophe, a combining accent, an uncased letter, a space, a full stop and a Latin letter
+    {
+        let alpha = ['Σ', 'Α', '\'', '\u{301}', '日', ' ', '.', 'a'];
+        let mut frontier = vec![String::new()];
+        for _ in 0..4 {
+            let mut next = Vec::new();
+            for w in &frontier {
+                for c in alpha {
+                    let mut t = w.clone();
+                    t.push(c);
+                    next.push(t);
+                }
+            }
+            for t in &next {
+                if t.contains('Σ') {
+                    v.push(t.clone());
+                }
+            }
+            frontier = next;
+        }
     }
     v.push("x".repeat(300));
     v.push(format!("{}needle{}", "hay".repeat(40), "stack".repeat(40)));
